@@ -533,15 +533,12 @@ def c05b_hook(ctx, n=None):
     for m in mism:
         ctx.violation('corr:document:' + m['key'], m['what'], m['replay'])
     if stats.get('frame_limit'):
-        # C05_round_trip_beyond_level_limit_refuted replayed on the C code (fixes/C05-parser-frame-limit.md).  Reported as a violation (printed as
-        # KNOWN-FINDING) once the key is registered in known_findings.txt; until then it is recorded in the evidence notes with its replay.
+        # C05_round_trip_beyond_level_limit_refuted replayed on the C code (fixes/C05-parser-frame-limit.md).  Always reported as a violation; the
+        # framework prints it as KNOWN-FINDING while known_findings.txt lists the key.
         rp = stats['frame_limit_replays'][0]
         what = ('a verified buffer (%d nested tables, the innermost holding a vector / an escaped string) is printed, and the generated parser rejects the printed text with '
                 '`runtime`: it needs builder level %d > FLATCC_JSON_PARSE_MAX_LEVELS = %d; %d such cases' % (rp['needs_levels'] - 2, rp['needs_levels'], rp['maxlvl'], stats['frame_limit']))
-        if ('C05', 'parser-frame-limit') in lib.load_findings()[0]:
-            ctx.violation('parser-frame-limit', what, rp)
-        else:
-            ctx.notes.append('FINDING parser-frame-limit (not registered in known_findings.txt, see fixes/C05-parser-frame-limit.md): ' + what + '; replay: ' + rp['harness_line'])
+        ctx.violation('parser-frame-limit', what, rp)      # a KNOWN-FINDING as long as known_findings.txt lists the key
     stats.setdefault('frame_limit', 0)
     ctx.notes.append('document layer: %(cases)d print/parse round trips, %(compared_text)d printed texts compared byte for byte with print_root, %(compared_parse)d parses compared '
                      'with parse_root, %(symbolic)d with enum symbols (parser model outside its fragment: text only), %(source_refused)d sources beyond the level limit, '
